@@ -4,7 +4,9 @@
 # stores the verdict in seeded/<id>/result-<tier>.txt.  Exit 0 if the change was reported (VIOLATION), 1 if missed.
 ID=$1; TIER=${2:-quick}; D=/verif/seeded/$ID; W=/tmp/seedrun-$$
 PROPS=$(python3 -c "import json;m=json.load(open('$D/meta.json'));print(' '.join(m.get('checks',[m['property']])))")
-git -C /repo worktree add -q --detach $W HEAD || exit 2
+# the patches were made against this commit of /repo (later fix: commits may touch the same lines)
+BASE=$(python3 -c "import json;print(json.load(open('$D/meta.json')).get('base','4b1fdd8'))")
+git -C /repo worktree add -q --detach $W $BASE || exit 2
 (cd $W && git apply $D/patch.diff) || { echo "patch does not apply"; git -C /repo worktree remove --force $W; exit 2; }
 : > $D/result-$TIER.txt
 caught=1
